@@ -44,6 +44,16 @@ def pools(rng):
         if not (hi.is_prerelease() or hi.is_postrelease() or hi.is_devrelease()):
             near += [f"<{hi.text}.dev0", f"<={hi.text}.dev0", f">={lo.text},<{hi.text}.dev0", f">{lo.text},<{hi.text}.dev0", f"<{lo.text} || >={hi.text}.dev0"]
         near += [f"<{lo.text} || >{hi.text}", f"<={lo.text} || >{hi.text}", f"<{lo.text} || >={hi.text}", f"<={lo.text} || >={hi.text}"]
+    # results of the algebra on bounds that meet: x.difference(y), x.intersect(y), x.union(y) next to the single versions and ranges
+    # they should be (a degenerate range [V, V] must not come back where the version V does: equal objects, different hashes)
+    algebra = []
+    for lo_t, hi_t in fixed + [("1.0", "2.0")]:
+        for a, b in [(f"<={hi_t}", f"<{hi_t}"), (f">={lo_t},<={hi_t}", f">={lo_t},<{hi_t}"), (f">={lo_t}", f">{lo_t}"), (f">={lo_t},<={hi_t}", f">{lo_t},<={hi_t}"),
+                     (f">={lo_t},<={hi_t}", f">{lo_t},<{hi_t}"), (f">={lo_t}", f"<={lo_t}"), (f"<={hi_t} || >{hi_t}", f"!={hi_t}")]:
+            ca, cb = parse_constraint(a), parse_constraint(b)
+            algebra += [(f"({a}) - ({b})", ca.difference(cb)), (f"({a}) & ({b})", ca.intersect(cb)), (f"({a}) | ({b})", ca.union(cb)), (f"({b}) - ({a})", cb.difference(ca))]
+        algebra += [(f"=={lo_t}", parse_constraint(f"=={lo_t}")), (f"=={hi_t}", parse_constraint(f"=={hi_t}")), (lo_t, parse_constraint(lo_t))]
+    P["constraint_algebra"] = [(s_, c) for s_, c in algebra]
     P["constraint_near"] = []
     for s in dict.fromkeys(near):
         try: P["constraint_near"].append((s, parse_constraint(s)))
@@ -52,7 +62,10 @@ def pools(rng):
     P["generic"] = [(s, gparse(s)) for s in gs]
     ms = ['python_version >= "3.8"', "python_version>='3.8'", 'python_version >= "3.8" and sys_platform == "linux"', 'sys_platform == "linux" and python_version >= "3.8"',
           '"arm64" not in platform_machine', 'platform_machine not in "arm64"', 'extra == "a"', "extra == 'A'", 'os.name == "nt"', 'os_name == "nt"',
-          'python_version >= "3.8" or python_version >= "3.8"', "", 'sys_platform == "linux" or sys_platform != "linux"']
+          'python_version >= "3.8" or python_version >= "3.8"', "", 'sys_platform == "linux" or sys_platform != "linux"',
+          # a two-component literal of python_full_version is padded: the padded and the unpadded spelling are one marker
+          'python_full_version >= "3.8"', 'python_full_version >= "3.8.0"', 'python_full_version ~= "3.8"', 'python_full_version ~= "3.8.0"',
+          'python_full_version < "3.10"', 'python_full_version < "3.10.0"', 'python_full_version == "3.9"', 'python_full_version == "3.9.0"']
     # the same alternatives / the same conjuncts in another order, alone and nested (reordered marker text)
     import marker_impl as MI
     for _ in range(6):
@@ -64,7 +77,14 @@ def pools(rng):
                f"{l3} and ({l2} or {l1})", f"{l1} and {l2}", f"{l2} and {l1}", f"({l1} and {l2}) or {l3}", f"{l3} or ({l2} and {l1})"]
     ms = list(dict.fromkeys(ms))
     P["marker"] = []
+    import poetry.core.version.markers as _mk
+    def fresh_caches():
+        # every spelling is parsed in its own cache generation (the public functools caches are emptied): otherwise a spelling parsed
+        # later may come back as the very object of an equal one parsed earlier, and the pair would never be two objects
+        for f in vars(_mk).values():
+            if callable(getattr(f, "cache_clear", None)): f.cache_clear()
     for s in ms:
+        fresh_caches()
         try: P["marker"].append((s, parse_marker(s)))
         except Exception: pass  # noqa
     P["marker"] += [(f"({s}) and self", m.intersect(m)) for s, m in P["marker"][:6]] + [(f"({s}) or self", m.union(m)) for s, m in P["marker"][:6]]
@@ -79,7 +99,7 @@ def same_meaning(kind, a, b, ienvs):
     from poetry.core.constraints.generic import Constraint
     if kind == "version":
         probes = I.critical_probes([a, b]); return all(a.allows(p) == b.allows(p) for p in probes)
-    if kind in ("constraint", "constraint_near"):
+    if kind in ("constraint", "constraint_near", "constraint_algebra"):
         probes = I.critical_probes(I.bounds_of(a) + I.bounds_of(b)); return all(a.allows(p) == b.allows(p) for p in probes)
     if kind == "generic":
         return all(a.allows(Constraint(p)) == b.allows(Constraint(p)) for p in ["linux", "win32", "a", "xay", "zz"])
@@ -123,7 +143,7 @@ def run(tier):
             try:
                 if kind == "version":
                     from poetry.core.constraints.version import Version; b = Version.parse(a.to_string())
-                elif kind in ("constraint", "constraint_near"):
+                elif kind in ("constraint", "constraint_near", "constraint_algebra"):
                     from poetry.core.constraints.version import parse_constraint
                     if a.is_empty(): continue
                     b = parse_constraint(str(a))
